@@ -242,6 +242,46 @@ def c14_kernel_sum(ctx, kernel, nsup):
     ctx.ensure("no supports: zero", eq(K.BaseKernel.linear_combination(k, x, sup[:0], w[:0]), np.zeros_like(x)))
 
 
+def _jit_identity(ctx):
+    """numba.jit(signatures, **options) -> decorator that returns the Python function itself: the body numba compiles is executed by CPython on symbols"""
+    def jit(*a, **k):
+        ctx.stub_used("numba.jit(...)(f) computes what the Python function f computes (the compiled float32 kernels themselves are exercised by C14.kernel_numba)")
+        if len(a) == 1 and callable(a[0]) and not k:
+            return a[0]
+        return lambda f: f
+    return jit
+
+
+@ob("C14.kernel_accel", cases=product_cases(kernel=("linear", "gaussian"), form=("pixel", "pixels", "image"), nsup=(1, 2, 3)), mods=["darsia.utils.kernels"], funcs=FUNCS, samples=(1, 2),
+    stubs={"numba.jit": _jit_identity}, budget={"abstract": True, "timeout_ms": 20000}, tol=1e-6,
+    cite="Kernel interpolation ... its accelerated evaluation agrees with the plain kernel sum for every supported signal shape",
+    note="the Python bodies of the numba kernels (LinearKernel / GaussianKernel.linear_combination) executed on symbolic signals, supports, weights and kernel parameter: equal to "
+         "sum_n w_n k(x, s_n) with k the kernel's own __call__; exp is an uninterpreted positive function (congruence only)")
+def c14_kernel_accel(ctx, kernel, form, nsup):
+    import darsia.utils.kernels as K
+    c = 2
+    shape = {"pixel": (c,), "pixels": (2, c), "image": (2, 2, c)}[form]
+    x = ctx.array("x", shape, sample=(0.0, 1.0))
+    sup = ctx.array("s", (nsup, c), sample=(0.0, 1.0))
+    w = ctx.array("w", (nsup,), sample=(-1.0, 1.0))
+    p = ctx.real("p", pos=True, sample=(0.25, 2.0))
+    if kernel == "linear":
+        k = K.LinearKernel(p)
+    else:
+        k = K.GaussianKernel(1.0)
+        k.gamma = p                      # (the constructor casts to float32: a representation, not a value, matter)
+    if not ctx.sym:
+        x, sup, w = x.astype(np.float32), sup.astype(np.float32), w.astype(np.float32)
+        if kernel == "linear":
+            k.a = np.float32(k.a)
+        else:
+            k.gamma = np.float32(k.gamma)
+    fast = k.linear_combination(x, sup, w)
+    plain = sum(w[n] * k(x, sup[n]) for n in range(nsup))
+    ctx.ensure("shape of the result == shape of the signal without its component axis", np.shape(fast) == tuple(shape[:-1]))
+    ctx.ensure("accelerated linear_combination(x) == sum_n w_n k(x, s_n)", eq(fast, plain))
+
+
 @ob("C14.kernel_numba", kind="B", cases=product_cases(kernel=("gaussian", "linear"), form=("pixels", "2d", "3d")), funcs=FUNCS, samples=(1, 3), tol=2e-4,
     cite="its accelerated evaluation agrees with the plain kernel sum for every supported signal shape; reproduces the prescribed values at its "
          "distinct, well-conditioned support points", note="bounded: numba-compiled float32 kernels and a dense solve are outside the verifier")
